@@ -50,6 +50,14 @@ type FS struct {
 	watchers []func(Event)
 	Opens    int
 	Log      []string
+	// Seeks and Stats record the results of Seek and Stat calls on virtual
+	// paths (offset reached; size seen, -1 when missing), in call order.
+	Seeks []int64
+	Stats []int64
+	// OnStat is called with the size a Stat call observed.
+	OnStat func(size int64)
+	// OnOpen is called after a successful Open of a virtual file.
+	OnOpen func()
 	// ReadHook, when set, decides the answer of every Read of a virtual file:
 	// want = len(buffer), avail = bytes left. It returns how many bytes to
 	// deliver (<= min(want, avail)) and an error to return with them
@@ -178,12 +186,43 @@ func Open(name string) (*File, error) {
 			return nil, &fs.PathError{Op: "open", Path: name, Err: err}
 		}
 	}
+	if cur.OnOpen != nil {
+		cur.OnOpen()
+	}
 	return &File{in: in, name: name}, nil
 }
 
 type info struct {
 	name string
 	size int64
+	ino  *inode
+}
+
+// SameFile replaces os.SameFile.
+func SameFile(a, b FileInfo) bool {
+	ia, oka := a.(info)
+	ib, okb := b.(info)
+	if oka && okb {
+		return ia.ino == ib.ino
+	}
+	if oka || okb {
+		return false
+	}
+	return os.SameFile(a, b)
+}
+
+// Stat replaces (*os.File).Stat.
+func (f *File) Stat() (FileInfo, error) {
+	if f == nil {
+		return nil, ErrInvalid
+	}
+	if f.real != nil {
+		return f.real.Stat()
+	}
+	if f.closed {
+		return nil, &fs.PathError{Op: "stat", Path: f.name, Err: ErrClosed}
+	}
+	return info{f.name, int64(len(f.in.data)), f.in}, nil
 }
 
 func (i info) Name() string       { return path.Base(i.name) }
@@ -200,9 +239,17 @@ func Stat(name string) (FileInfo, error) {
 	vrt.YieldAt("os.Stat")
 	in, ok := cur.files[name]
 	if !ok {
+		cur.Stats = append(cur.Stats, -1)
+		if cur.OnStat != nil {
+			cur.OnStat(-1)
+		}
 		return nil, &fs.PathError{Op: "stat", Path: name, Err: ErrNotExist}
 	}
-	return info{name, int64(len(in.data))}, nil
+	cur.Stats = append(cur.Stats, int64(len(in.data)))
+	if cur.OnStat != nil {
+		cur.OnStat(int64(len(in.data)))
+	}
+	return info{name, int64(len(in.data)), in}, nil
 }
 
 func (f *File) Read(b []byte) (int, error) {
@@ -269,6 +316,9 @@ func (f *File) Seek(off int64, whence int) (int64, error) {
 		return 0, &fs.PathError{Op: "seek", Path: f.name, Err: ErrInvalid}
 	}
 	f.pos = np
+	if cur != nil {
+		cur.Seeks = append(cur.Seeks, np)
+	}
 	return np, nil
 }
 
